@@ -254,6 +254,7 @@ func worker(args []string) {
 	}
 	sort.Slice(rep.Violations, func(i, j int) bool { return rep.Violations[i].Class < rep.Violations[j].Class })
 	rep.WallS = time.Since(t0).Seconds()
+	rep.Capped = len(st.Nontrivial) >= maxHashes || len(st.Traces) >= maxHashes || len(st.Partials) >= maxHashes
 	b, _ := json.Marshal(rep)
 	base := filepath.Join(*outDir, fmt.Sprintf("w%02d", *shard))
 	if err := os.WriteFile(base+".json", b, 0644); err != nil {
@@ -422,6 +423,7 @@ func master(args []string) {
 	viols := regress
 	var incs []string
 	var steps []int
+	capped := false
 	for i := 0; i < n; i++ {
 		base := filepath.Join(work, fmt.Sprintf("w%02d", i))
 		b, err := os.ReadFile(base + ".json")
@@ -459,6 +461,7 @@ func master(args []string) {
 		}
 		viols = append(viols, rep.Violations...)
 		incs = append(incs, rep.Inconclusive...)
+		capped = capped || rep.Capped
 	}
 	sort.Ints(steps)
 
@@ -553,37 +556,37 @@ func master(args []string) {
 		samples = append(samples, v)
 	}
 	cov := map[string]interface{}{
-		"evaluations":             st.Evaluations,
-		"distinct_nontrivial":     len(st.Nontrivial),
-		"rule":                    p.Rule,
-		"samples":                 samples,
-		"trials":                  st.Trials,
-		"verif_seed":              *seed,
-		"subseed_ordinals":        fmt.Sprintf("0..%d (sub-seed = hash(VERIF_SEED, property, ordinal))", trialsFor(p, *tier)-1),
-		"runs_per_hour":           int(float64(st.Evaluations) / wall * 3600),
-		"trials_per_hour":         int(float64(st.Trials) / wall * 3600),
-		"distinct_counts_are_lower_bounds": len(st.Nontrivial) >= maxHashes || len(st.Traces) >= maxHashes || st.Trials > 1500000,
-		"steps_total":             st.Steps,
-		"steps_p50":               percentile(steps, 0.5),
-		"steps_p99":               percentile(steps, 0.99),
-		"simulated_time_note":     "gofasta has no clock or timer; simulated time is the number of visible operations (steps)",
-		"strategies":              st.Strategies,
-		"fault_kinds_fired":       st.Faults,
-		"probes":                  st.Probes,
-		"distinct_traces":         len(st.Traces),
-		"distinct_partial_orders": len(st.Partials),
-		"interleaving_measure":    "distinct_traces = distinct hashes of the full (goroutine, operation, channel) sequence of a run; distinct_partial_orders = distinct hashes of the per-channel operation sequences (commuting reorderings collapse)",
-		"outcomes":                st.Outcomes,
-		"discards":                st.Discards,
-		"threads_hist":            st.Threads,
-		"numcpu_hist":             st.NumCPU,
-		"trial_kinds":             st.Kinds,
-		"commands":                st.Cmds,
-		"known_findings_replayed": knownReplayed,
-		"known_finding_hits":      st.KnownHits,
-		"workers":                 n,
-		"real_vs_stub":            realVsStub,
-		"exhaustive":              false,
+		"evaluations":                      st.Evaluations,
+		"distinct_nontrivial":              len(st.Nontrivial),
+		"rule":                             p.Rule,
+		"samples":                          samples,
+		"trials":                           st.Trials,
+		"verif_seed":                       *seed,
+		"subseed_ordinals":                 fmt.Sprintf("0..%d (sub-seed = hash(VERIF_SEED, property, ordinal))", trialsFor(p, *tier)-1),
+		"runs_per_hour":                    int(float64(st.Evaluations) / wall * 3600),
+		"trials_per_hour":                  int(float64(st.Trials) / wall * 3600),
+		"distinct_counts_are_lower_bounds": capped || len(st.Nontrivial) >= maxHashes || len(st.Traces) >= maxHashes,
+		"steps_total":                      st.Steps,
+		"steps_p50":                        percentile(steps, 0.5),
+		"steps_p99":                        percentile(steps, 0.99),
+		"simulated_time_note":              "gofasta has no clock or timer; simulated time is the number of visible operations (steps)",
+		"strategies":                       st.Strategies,
+		"fault_kinds_fired":                st.Faults,
+		"probes":                           st.Probes,
+		"distinct_traces":                  len(st.Traces),
+		"distinct_partial_orders":          len(st.Partials),
+		"interleaving_measure":             "distinct_traces = distinct hashes of the full (goroutine, operation, channel) sequence of a run; distinct_partial_orders = distinct hashes of the per-channel operation sequences (commuting reorderings collapse)",
+		"outcomes":                         st.Outcomes,
+		"discards":                         st.Discards,
+		"threads_hist":                     st.Threads,
+		"numcpu_hist":                      st.NumCPU,
+		"trial_kinds":                      st.Kinds,
+		"commands":                         st.Cmds,
+		"known_findings_replayed":          knownReplayed,
+		"known_finding_hits":               st.KnownHits,
+		"workers":                          n,
+		"real_vs_stub":                     realVsStub,
+		"exhaustive":                       false,
 	}
 	for k, v := range raceInfo {
 		cov[k] = v
